@@ -18,7 +18,58 @@ def gen_models(ctx, n, pid=None):
     ms += handmade()
     if pid == "C11":
         ms += wild_cycles(rng, max(40, n // 6))
+    if pid in ("C04", "C05", "C06"):
+        ms += constrained_cycles(rng, max(60, n // 5))
     return ms
+
+
+def constrained_cycles(rng, n):
+    """one type whose relations form a tuple cycle (usersets / tuple-to-usersets) with extra rewrite edges between
+    cycle members (diamonds, cross edges) and, in about half of the models, an intersection or exclusion whose
+    operand lies on the cycle: the refusal of constrained cycles and the resolution of shared placeholders must not
+    depend on which path the depth-first search walks first"""
+    out = []
+    for _ in range(n):
+        k = rng.choice([2, 3, 3, 4, 5])
+        rels = ["r%d" % i for i in range(k)]
+        rl, ml = [], []
+        use_ttu = rng.random() < 0.3
+        if use_ttu:
+            rl.append([S("parent"), [1, 1]])
+            ml.append([S("parent"), [[[S("doc"), [0], []]], [], []]])
+        for i, r in enumerate(rels):
+            nxt = rels[(i + 1) % k]
+            refs = [[S("user"), [0], []]]
+            hop = None
+            if use_ttu and rng.random() < 0.5:
+                hop = [3, S("parent"), S(nxt)]
+            else:
+                refs.append([S("doc"), [1, S(nxt)], []])
+            kids = [[1, 1]] + ([hop] if hop else [])
+            # cross edges to other cycle members
+            for _ in range(rng.choice([0, 0, 1, 1, 2])):
+                kids.append([2, S(rng.choice(rels))])
+            if len(kids) == 1:
+                u = [1, 1]
+            else:
+                u = [4] + kids
+            rl.append([S(r), u])
+            ml.append([S(r), [refs, [], []]])
+        if rng.random() < 0.55:
+            # an operator relation whose operand is a cycle member, itself referenced from the cycle
+            op = rng.choice([5, 6])
+            target = rng.choice(rels)
+            rl.append([S("c"), [op, [1, 1], [2, S(target)]]])
+            ml.append([S("c"), [[[S("user"), [0], []]], [], []]])
+            host = rng.randrange(len(rl))
+            if T(rl[host][0]).startswith("r"):
+                u = rl[host][1]
+                rl[host][1] = ([4, u] if u[0] != 4 else list(u)) + [[2, S("c")]]
+        order = list(zip(rl, ml))
+        rng.shuffle(order)
+        types = [[S("user"), [], []], [S("doc"), [x[0] for x in order], [[[x[1] for x in order], [], []]]]]
+        out.append([S("1.1"), types, []])
+    return out
 
 
 def wild_cycles(rng, n):
@@ -92,6 +143,14 @@ def handmade():
         M([("user", []), ("folder", [("a", [4, th, c("b")], [U("user")]), ("b", c("a"), [])]),
            ("doc", [("parent", th, [U("folder")]), ("viewer", ttu("parent", "a"), []), ("editor", th, [Rr("folder", "b")])])]),
         M([("user", []), ("doc", [("a", c("a"), [])])]),
+        # a tupleset listing one parent type twice (plain and conditioned) before another parent type
+        [S("1.1"), [[S("user"), [], []],
+                    [S("folder"), [[S("admin"), th]], [[[[S("admin"), [[U("user")], [], []]]], [], []]]],
+                    [S("team"), [[S("admin"), th]], [[[[S("admin"), [[U("user")], [], []]]], [], []]]],
+                    [S("doc"), [[S("parent"), th], [S("viewer"), ttu("parent", "admin")]],
+                     [[[[S("parent"), [[U("folder"), [S("folder"), [0], S("condX")], U("team")], [], []]],
+                        [S("viewer"), [[], [], []]]], [], []]]]],
+         [[S("condX"), [S("condX"), S("x > 0"), [[S("x"), [4]]], []]]]],
         M([("user", []), ("group", []), ("doc", [("a", th, [U("group")]), ("b", th, [U("group")]), ("x", [5, th, c("a"), c("b")], [U("user")])])]),
     ]
 
